@@ -52,7 +52,7 @@ def usable(name):
 
 
 # ------------------------------------------------------------------------------------ context kwds
-USERS = ["u", "Admin", "sc", "usr", "user", "longer.user@example.org", "üser"]
+USERS = ["u", "Admin", "sc", "usr", "user", "longer.user@example.org", "üser", "MÜLLER", "Åsa", "Юзер", "Łukasz", "十Z", "SCOTT", "a b"]
 REALMS = ["r", "realm with blank", "réalm"]
 
 
@@ -70,6 +70,9 @@ def ctx_for(h, rng, simple=False):
             out["encoding"] = rng.choice(["cp437", "latin-1", "cp850"])
         elif h.name == "htdigest":
             out["encoding"] = rng.choice(["utf-8", "latin-1"])
+            if out["encoding"] == "latin-1":
+                out["user"] = rng.choice(["u", "Admin", "üser", "MÜLLER"])
+                out["realm"] = rng.choice(["r", "réalm"])
     return out
 
 
@@ -242,6 +245,8 @@ def pw_bytes(rng, length, kind="ascii"):
         return bytes(rng.randrange(1, 256) for _ in range(length))
     if kind == "high":
         return bytes(rng.randrange(0x80, 0x100) for _ in range(length))
+    if kind == "ws":  # printable ascii mixed with blanks and control characters (no NUL)
+        return bytes(rng.choice(b" \t\n\r\x0b\x0c\x01\x1f\x7f") if rng.random() < 0.3 else rng.randrange(0x21, 0x7F) for _ in range(length))
     raise ValueError(kind)
 
 
